@@ -384,7 +384,10 @@ class Model():
         for field_name in field_names:
             for asset in getattr(association, field_name):
                 asset_assocs = list(asset.associations)
-                asset_assocs.append(association)
+                # A reflexive association can hold the asset in both fields,
+                # it should still only be listed once.
+                if not any(assoc is association for assoc in asset_assocs):
+                    asset_assocs.append(association)
                 asset.associations = asset_assocs
 
         self.associations.append(association)
